@@ -42,13 +42,27 @@ def worker(k, q, args, out):
             run(["git", "checkout", "--", "."], cwd=wt)
             run(["git", "clean", "-fdq"], cwd=wt)
             a = run(["git", "apply", os.path.join(d, "patch.diff")], cwd=wt)
+            fuzzy = ""
+            if a.returncode != 0:
+                # the tree has moved on under the change (later repairs): try again with reduced context; a change that then
+                # applies and still builds is close enough to what was written to be worth running
+                run(["git", "checkout", "--", "."], cwd=wt)
+                run(["git", "clean", "-fdq"], cwd=wt)
+                a = run(["patch", "-p1", "-F3", "-s", "--no-backup-if-mismatch", "-i", os.path.join(d, "patch.diff")], cwd=wt)
+                for root, _, files in os.walk(wt):
+                    for f in files:
+                        if f.endswith(".rej") or f.endswith(".orig"):
+                            os.remove(os.path.join(root, f))
+                fuzzy = " (applied with reduced context)"
             if a.returncode != 0:
                 verdict = "patch no longer applies"
             else:
                 env = dict(ENV, VERIF_REPO=wt, VERIF_JOBS=str(args.jobs), VERIF_FAILFAST="1", VERIF_TIMEOUT="600")
                 r = run([os.path.join(HERE, "check"), prop], cwd=HERE, env=env)
                 first = [l.strip() for l in r.stdout.splitlines() if l.startswith("  " + prop)][:1]
-                verdict = {0: "MISSED", 1: "caught"}.get(r.returncode, "ERROR rc=%d" % r.returncode)
+                verdict = {0: "MISSED", 1: "caught"}.get(r.returncode, "ERROR rc=%d" % r.returncode) + fuzzy
+                if r.returncode == 2 and "BUILD-FAILED" in r.stdout:
+                    verdict = "patch no longer applies (does not build)"
                 if first:
                     verdict += "  " + first[0][:140]
                 if r.returncode not in (0, 1):
